@@ -43,6 +43,7 @@ class FakeKazoo(KazooClient):
     self.evq = Queue()
     self.latencies = list(latencies)
     self.ncalls = 0
+    self.override = {}         # method name -> latency, takes precedence over the cycle (choreographed races)
     self.callback_errors = []
     self.incarnations = {}     # path -> [dict(czxid, created, deleted, had_children)]
     self._pump_g = gevent.spawn(self._pump)
@@ -70,9 +71,11 @@ class FakeKazoo(KazooClient):
       except Exception as e:      # kazoo's handler logs and carries on
         self.callback_errors.append(repr(e))
 
-  def _lat(self):
+  def _lat(self, method=None):
     d = self.latencies[self.ncalls % len(self.latencies)]
     self.ncalls += 1
+    if method in self.override:
+      d = self.override[method]
     if d:
       gevent.sleep(d)
     else:
@@ -80,13 +83,13 @@ class FakeKazoo(KazooClient):
 
   # --- client API used by scales and the recipes
   def exists(self, path, watch=None):
-    self._lat()
+    self._lat('exists')
     if watch:
       self.dw[path].append(watch)
     return self.tree[path][1] if path in self.tree else None
 
   def get(self, path, watch=None):
-    self._lat()
+    self._lat('get')
     if path not in self.tree:
       raise NoNodeError()
     if watch:
@@ -94,7 +97,7 @@ class FakeKazoo(KazooClient):
     return self.tree[path]
 
   def get_children(self, path, watch=None):
-    self._lat()
+    self._lat('get_children')
     if path not in self.tree:
       raise NoNodeError()
     if watch:
